@@ -302,6 +302,10 @@ func (g *gen) str() string {
 	if c20Zero && g.r.Chance(1, 14) {
 		return `""`
 	}
+	// round 4: the neighbours of the zero string - blank but not empty, blanks at the ends (kept by the formatter)
+	if c20Zero && g.r.Chance(1, 14) {
+		return g.r.PickS(`" "`, `"  "`, `" a "`, `"a "`, `" a"`)
+	}
 	if g.ctlLit && g.r.Chance(1, 12) {
 		return `"` + g.r.PickS("a\tb", "\tx", "tab\t") + `"`
 	}
@@ -311,6 +315,9 @@ func (g *gen) str() string {
 func (g *gen) rawstr() string {
 	if c20Zero && g.r.Chance(1, 14) {
 		return "``"
+	}
+	if c20Zero && g.r.Chance(1, 20) {
+		return g.r.PickS("` `", "`  `", "` a `")
 	}
 	if g.ctlLit && g.r.Chance(1, 8) {
 		return "`" + g.r.PickS("two\nlines", "a\tb", "x\n\ty", "x \ny", "x\n y", "\tx") + "`"
@@ -912,7 +919,7 @@ func (g *gen) lexAtom() string {
 	case 5:
 		return g.r.PickS("\"a b\"", "\"\"", "``", "`a\nb`", "\"a\\\"b\"", "\"a", "`a", "\"a`", "`a\"", "\"a\nb\"", "\"//x\"", "`/*`")
 	case 6:
-		return g.r.PickS("//c", "// c \t", "/* c */", "/**/", "/***/", "/* * / */", "/*", "/* c *", "/* c /", "/", "/ /", "/*/", "//", "/**\n * x/y\n */")
+		return g.r.PickS("//c", "// c ", "/* c */", "/**/", "/***/", "/* * / */", "/*", "/* c *", "/* c /", "/", "/ /", "/*/", "//", "/** x/y */")
 	case 7:
 		return g.r.PickS("-", "*", "(", "[", "{", ",", ")", "]", "}", ";", ":", "=", "==", ":=", "->")
 	case 8:
@@ -935,7 +942,13 @@ func (g *gen) lexSoup() []string {
 			b.WriteString(g.lexAtom())
 			b.WriteString(g.r.PickS(" ", " ", "", "", "\n", "\t", " \n ", "\r\n", "\f", "\v"))
 		}
-		chunks = append(chunks, b.String())
+		c := b.String()
+		if strings.Contains(c, "/") {
+			// a form feed / vertical tab / tab behind `//` would be part of a line comment: that is the known class of
+			// control characters in comments (tabwriter cells), not a scanner matter
+			c = strings.NewReplacer("\f", " ", "\v", " ", "\t", " ").Replace(c)
+		}
+		chunks = append(chunks, c)
 	}
 	return chunks
 }
